@@ -260,11 +260,10 @@ package core
 // quote: a path must come out as ONE shell word. A string with no character that is special to the shell
 // is left alone; a string with a word-splitting or control character must be quoted.
 //@ spec splitsWord(s string) bool = strings.ContainsAny(s, " \t\n|&;()<>")
-//@ spec quoteGap(s string) bool = strings.ContainsAny(s, " \t\n") && !strings.ContainsAny(s, "|&;()<>")
 //@ func quote
 //@   modifies nothing
 //@   ensures plain_unchanged [C37]: !strings.ContainsAny(s, " \t\n|&;()<>$`\"'*?[\\") ==> result == s
-//@   ensures one_word [C37 except=quoteGap]: splitsWord(s) ==> result == "\"" + s + "\""
+//@   ensures one_word [C37]: splitsWord(s) ==> result == "\"" + s + "\""
 //
 //@ func handleDir
 //@   modifies nothing
